@@ -235,7 +235,8 @@ func parseC15Script(s string) (*c15Script, bool) {
 			ed.a, o1 = num(2)
 			ed.b, o2 = num(3)
 			ed.c, o3 = num(4)
-			ok = o1 && o2 && o3 && len(f) == 5 && ed.a >= 0 && ed.b >= 1 && ed.b <= 3 && ed.c != 0
+			// width 9: not a single field — append delta stray bytes and fix the `offset` outermost enclosing lengths
+			ok = o1 && o2 && o3 && len(f) == 5 && ed.a >= 0 && ((ed.b >= 1 && ed.b <= 3) || ed.b == 9) && ed.c != 0
 		default:
 			ok = false
 		}
@@ -455,7 +456,11 @@ func (m *c15Mitm) emit(it *c15Item, edits []c15Edit) {
 				}
 			}
 		case "len":
-			if it.kind == "hs" && e.a+e.b <= len(raw) {
+			if it.kind == "hs" && e.b == 9 {
+				if e.c > 0 {
+					raw = tlsTrailJunk(raw, e.c, e.a)
+				}
+			} else if it.kind == "hs" && e.a+e.b <= len(raw) {
 				v := 0
 				for j := 0; j < e.b; j++ {
 					v = v<<8 | int(raw[e.a+j])
@@ -1135,8 +1140,6 @@ func evalChmod(args []string) string {
 	return v + " " + answer
 }
 
-var _ = sort.Ints
-
 // ---- generator ---------------------------------------------------------------------------------------------
 
 type c15Config struct{ role, flags string }
@@ -1279,6 +1282,13 @@ func (g *c15Gen) byteEdits(r *rng, all bool) []string {
 			out = append(out, fmt.Sprintf("len:%d:1:3:%d", i, d), fmt.Sprintf("len:%d:3:1:%d", i, d))
 		}
 		out = append(out, fmt.Sprintf("len:%d:1:1:1", i), fmt.Sprintf("len:%d:2:1:1", i)) // > 64 KiB
+		if it != "shd" { // stray bytes at the end of an inner vector, all enclosing lengths consistent
+			for depth := 1; depth <= 3; depth++ {
+				for _, k := range []int{1, 2} {
+					out = append(out, fmt.Sprintf("len:%d:%d:9:%d", i, depth, k))
+				}
+			}
+		}
 		n := 4
 		if all {
 			n = min - 4
